@@ -265,6 +265,8 @@ func (x *c16Runner) forkModel(spec *c16TASpec, decId string, m *c16TAModel) {
 		} else {
 			r.hist("TA_model_" + m.Kind + "_does_not_compile_both")
 			switch {
+			case f["ph"] == "true":
+				r.hist("TA_model_not_compiling_map_call_without_split_binding")
 			case f["plain"] == "false":
 				r.hist("TA_model_not_compiling_split_inside_value")
 			case f["wf"] == "false":
